@@ -88,7 +88,11 @@ ExplainsDebug(e) ==
 ExplainsDefault(e) ==
     IF DefaultRejected(e.P) THEN e.rejected
     ELSE /\ ~e.rejected
-         /\ IF e.P.tv # "none" THEN e.prov = <<"type_level">>
+         /\ IF e.P.tv # "none"
+            THEN \* the type-level value wins over everything else (the driver's value: variant 1, every field marked)
+                 /\ e.variant = 1
+                 /\ Len(e.prov) = Len(e.P.variants[1].fields)
+                 /\ \A j \in DOMAIN e.prov : e.prov[j] = "type_level"
             ELSE LET vi == DefaultVariant(e.P)
                  IN  /\ e.variant = vi
                      /\ e.prov = [j \in DOMAIN e.P.variants[vi].fields |-> FieldDefault(e.P.variants[vi].fields[j])]
